@@ -1093,3 +1093,321 @@ func (c *Ctx) ruleRelock(rule string) {
 		c.R.Unresolved(rule, sprintf("calls of client / server methods made inside critical sections (%d found, at least 3 expected)", n))
 	}
 }
+
+// R-STARTGATE (C06 "Close returns ... under every interleaving of Execute calls and Close"): once the peer has been told
+// that the client is done it reads nothing more. A run that is registered (its read loop started, Close waiting for
+// that loop) but whose work start is written after the client-done message can never be answered: the write fails, the
+// run is forgotten, and the read loop - with nobody left to tell it - waits for a message that never comes. The two
+// writes must exclude each other: obligation
+//
+//	(1) the client has a sync.RWMutex; some client method makes, between RLock and RUnlock of it, one call that reaches
+//	    both the insertion into the pending table and a write to the connection, and the inserting function is not
+//	    reachable any other way;
+//	(2) in the method that sets the done flag, every write to the connection is made with that RWMutex write-locked.
+func (c *Ctx) ruleStartGate(rule string) {
+	ro := c.roles()
+	if !ro.ok {
+		return
+	}
+	gate := ""
+	if st := fieldsOf(ro.clientT); st != nil {
+		for i := 0; i < st.NumFields(); i++ {
+			if isNamed(st.Field(i).Type(), "sync", "RWMutex") {
+				gate = st.Field(i).Name()
+			}
+		}
+	}
+	k1 := key(rule, "atp.client", "a run is registered and its work start written in one read-locked section")
+	k2 := key(rule, "atp.client", "the client-done message is written with the same lock write-held")
+	if gate == "" {
+		c.R.Bad(rule, k1, "-", "nothing keeps Close from telling the peer it is done between a run's registration and its work start",
+			"the client has no lock that the start of a run shares with Close: Close can write the client-done message after Execute has registered its run and started the read loop but before the work start is out; the peer stops reading, the work start fails, and the read loop (and Close, which waits for it) is left waiting for ever on a transport the peer's end does not close")
+		return
+	}
+	rwOp := func(cc *ssa.CallCommon) string {
+		n := core.StaticCalleeName(cc)
+		if !strings.HasPrefix(n, "(*sync.RWMutex).") || len(cc.Args) == 0 || !strings.HasSuffix(c.M.AddrPath(cc.Args[0]), "."+gate) {
+			return ""
+		}
+		return strings.TrimPrefix(n, "(*sync.RWMutex).")
+	}
+	insertsPending := func(f *ssa.Function) bool {
+		for _, b := range f.Blocks {
+			for _, in := range b.Instrs {
+				if mu, ok := in.(*ssa.MapUpdate); ok && c.isFieldLoad(mu.Map, ro.clientT, ro.pending) {
+					return true
+				}
+			}
+		}
+		return false
+	}
+	encodes := func(f *ssa.Function) bool {
+		for _, b := range f.Blocks {
+			for _, in := range b.Instrs {
+				if call, ok := in.(*ssa.Call); ok && strings.HasSuffix(core.StaticCalleeName(&call.Call), "cbor/v2.Encoder).Encode") {
+					return true
+				}
+			}
+		}
+		return false
+	}
+	reachesBoth := func(f *ssa.Function) (bool, map[*ssa.Function]bool) {
+		r := c.reachSync(f)
+		ins, enc := false, false
+		for g := range r {
+			if insertsPending(g) {
+				ins = true
+			}
+			if encodes(g) {
+				enc = true
+			}
+		}
+		return ins && enc, r
+	}
+	ok1, why1 := false, "no call that reaches both the registration and the write lies between RLock and RUnlock of "+gate
+	for _, fn := range c.M.SortedFuncs(c.scopePkg("atp")) {
+		if !c.isMethodOf(fn, ro.clientT) {
+			continue
+		}
+		var rlocks, runlocks []ssa.Instruction
+		for _, b := range fn.Blocks {
+			for _, in := range b.Instrs {
+				if call, ok := in.(*ssa.Call); ok {
+					switch rwOp(&call.Call) {
+					case "RLock":
+						rlocks = append(rlocks, in)
+					case "RUnlock":
+						runlocks = append(runlocks, in)
+					}
+				}
+			}
+		}
+		if len(rlocks) == 0 {
+			continue
+		}
+		for _, b := range fn.Blocks {
+			for _, in := range b.Instrs {
+				call, isCall := in.(*ssa.Call)
+				if !isCall || call.Call.StaticCallee() == nil {
+					continue
+				}
+				both, region := reachesBoth(call.Call.StaticCallee())
+				if !both {
+					continue
+				}
+				inside := false
+				for _, l := range rlocks {
+					if instrDominates(l, call) {
+						inside = true
+					}
+				}
+				for _, u := range runlocks {
+					if instrDominates(u, call) {
+						inside = false
+					}
+				}
+				if !inside {
+					why1 = "the call " + c.callDesc(call) + " in " + c.M.Key(fn) + " reaches the registration and the write but is not made between RLock and RUnlock of " + gate
+					continue
+				}
+				// the inserting function is reachable only through this call
+				leak := ""
+				for g := range region {
+					if !insertsPending(g) {
+						continue
+					}
+					for _, h := range c.M.SortedFuncs(c.scopePkg("atp")) {
+						if region[h] {
+							continue
+						}
+						for _, e := range c.M.Edges(h) {
+							if e.To == g && !(h == fn) {
+								leak = c.M.Key(h) + " also calls " + c.M.Key(g)
+							}
+						}
+					}
+				}
+				if leak != "" {
+					why1 = leak + " outside the read-locked section"
+					continue
+				}
+				ok1, why1 = true, "in "+c.M.Key(fn)+" the call "+c.callDesc(call)+", which reaches the insertion into the pending table and the write of the work start, is made between RLock and RUnlock of "+gate+", and the inserting function is reached in no other way"
+			}
+		}
+	}
+	if ok1 {
+		c.R.Ok(rule, k1, "-", "start of a run", why1)
+	} else {
+		c.R.Bad(rule, k1, "-", "a run's registration and its work start are not in one section that excludes Close's client-done message", why1)
+	}
+	// (2)
+	ok2, why2, n := true, "", 0
+	for _, fn := range c.M.SortedFuncs(c.scopePkg("atp")) {
+		if !c.isMethodOf(fn, ro.clientT) {
+			continue
+		}
+		setsDone := false
+		for _, b := range fn.Blocks {
+			for _, in := range b.Instrs {
+				if name, val, ok := c.clientFieldStore(in, ro); ok && name == ro.doneFlag {
+					if cst, ok := val.(*ssa.Const); ok && cst.Value != nil && cst.Value.String() == "true" {
+						setsDone = true
+					}
+				}
+			}
+		}
+		if !setsDone {
+			continue
+		}
+		for _, b := range fn.Blocks {
+			for _, in := range b.Instrs {
+				call, isCall := in.(*ssa.Call)
+				if !isCall || call.Call.StaticCallee() == nil || !c.methodOrClosureOf(call.Call.StaticCallee(), ro.clientT) {
+					continue
+				}
+				writes := false
+				for g := range c.reachSync(call.Call.StaticCallee()) {
+					if encodes(g) {
+						writes = true
+					}
+				}
+				if !writes {
+					continue
+				}
+				n++
+				held := false
+				for _, l := range c.lockedAt(fn, in) {
+					if strings.HasSuffix(l, "."+gate) {
+						held = true
+					}
+				}
+				if !held {
+					ok2, why2 = false, "the write at "+c.M.InstrPos(in)+" in "+c.M.Key(fn)+" is made without "+gate+" write-locked"
+				}
+			}
+		}
+	}
+	if ro.doneFlag == "" || n == 0 {
+		c.R.Unresolved(rule, "the closing method's write of the client-done message")
+		return
+	}
+	if ok2 {
+		c.R.Ok(rule, k2, "-", "client-done message", sprintf("the %d write(s) to the connection in the method that sets the done flag hold %s", n, gate))
+	} else {
+		c.R.Bad(rule, k2, "-", "Close can tell the peer it is done while a run is being started", why2+": the peer stops reading before the work start of a run that is already registered arrives")
+	}
+}
+
+// R-SIGCHAN, refusal clause (C08 "every ... later Execute ... never leaves a caller blocked"): the caller's goroutine
+// that ranges over the run's signal channel ends when the client closes the channel - at the end of the run. A run
+// that the registering function refuses (client closed, stream failed before) has no end anybody would notice:
+// every rejecting return of the function that registers the channel in the signal table closes the channel it was
+// given (or finds it nil) on the way - except where the run ID is found taken, because then the channel may be the one
+// the run that holds the ID is using.
+func (c *Ctx) ruleRefusalCloses(rule string) {
+	ro := c.roles()
+	if !ro.ok || ro.sigTable == "" {
+		return
+	}
+	n := 0
+	for _, fn := range c.M.SortedFuncs(c.scopePkg("atp")) {
+		if !c.methodOrClosureOf(fn, ro.clientT) {
+			continue
+		}
+		var ch *ssa.Parameter
+		for _, b := range fn.Blocks {
+			for _, in := range b.Instrs {
+				if mu, ok := in.(*ssa.MapUpdate); ok && strings.HasSuffix(c.M.ValPath(mu.Map), "."+ro.sigTable) {
+					if p, ok := mu.Value.(*ssa.Parameter); ok {
+						ch = p
+					}
+				}
+			}
+		}
+		ei := core.ErrorResultIndex(fn.Signature)
+		if ch == nil || ei < 0 {
+			continue
+		}
+		closes := func(f *ssa.Function, depth int) bool { return false }
+		_ = closes
+		gen := func(b *ssa.BasicBlock) bool {
+			for _, in := range b.Instrs {
+				call, ok := in.(*ssa.Call)
+				if !ok {
+					continue
+				}
+				if bi, ok := call.Call.Value.(*ssa.Builtin); ok && bi.Name() == "close" && call.Call.Args[0] == ssa.Value(ch) {
+					return true
+				}
+				// a helper that closes its (non-nil) channel parameter on every path
+				if callee := call.Call.StaticCallee(); callee != nil {
+					for ai, a := range call.Call.Args {
+						if a != ssa.Value(ch) || ai >= len(callee.Params) || len(callee.Blocks) == 0 {
+							continue
+						}
+						p := callee.Params[ai]
+						if everyPathSat(callee.Blocks[0], func(bb *ssa.BasicBlock, in2 ssa.Instruction) bool {
+							if c2, ok := in2.(*ssa.Call); ok {
+								if bi, ok := c2.Call.Value.(*ssa.Builtin); ok && bi.Name() == "close" && c2.Call.Args[0] == ssa.Value(p) {
+									return true
+								}
+							}
+							if ifi, ok := in2.(*ssa.If); ok {
+								// `if p != nil { close(p) }`: the nil outcome needs no close
+								if x, _, isNil := core.NilCmp(ifi.Cond); isNil && x == ssa.Value(p) {
+									for _, sc := range bb.Succs {
+										for _, y := range sc.Instrs {
+											if c3, ok := y.(*ssa.Call); ok {
+												if bi, ok := c3.Call.Value.(*ssa.Builtin); ok && bi.Name() == "close" && c3.Call.Args[0] == ssa.Value(p) {
+													return true
+												}
+											}
+										}
+									}
+								}
+							}
+							return false
+						}) {
+							return true
+						}
+					}
+				}
+			}
+			return false
+		}
+		isNilEdge := func(cond core.Cond) bool {
+			x, neq, isNil := core.NilCmp(cond.V)
+			return isNil && neq != cond.True && x == ssa.Value(ch)
+		}
+		hold := mustHoldGen(fn, isNilEdge, gen)
+		cnt := 0
+		for _, ret := range core.ReturnsOf(fn) {
+			if !c.M.ProvablyNonNilError(core.RetVal(ret, ei), ret.Block()) {
+				continue
+			}
+			n++
+			cnt++
+			k := key(rule, c.M.Key(fn), sprintf("refusal #%d closes the signal channel the run was given", cnt))
+			taken := false
+			for _, cond := range core.CondsAt(ret.Block()) {
+				if ex, ok := cond.V.(*ssa.Extract); ok && ex.Index == 1 && cond.True {
+					if lk, ok := ex.Tuple.(*ssa.Lookup); ok && lk.CommaOk && c.isFieldLoad(lk.X, ro.clientT, ro.pending) {
+						taken = true
+					}
+				}
+			}
+			switch {
+			case taken:
+				c.R.Ok(rule, k, c.M.InstrPos(ret), "refusal of a run", "the run ID is taken: the channel may be the one the run that holds the ID uses, it is left alone")
+			case hold[ret.Block()] || gen(ret.Block()):
+				c.R.Ok(rule, k, c.M.InstrPos(ret), "refusal of a run", "on every path to it the channel parameter was closed (or found nil)")
+			default:
+				c.R.Bad(rule, k, c.M.InstrPos(ret), "a refused run leaves the caller's signal channel open for ever",
+					"the function that would register the channel returns an error without closing it: nothing knows the channel, nothing will ever close it, and the caller's goroutine that ranges over it never ends")
+			}
+		}
+	}
+	if n < 2 {
+		c.R.Unresolved(rule, sprintf("rejecting returns of the function that registers a run's signal channel (%d found, at least 2 expected)", n))
+	}
+}
